@@ -151,6 +151,28 @@ var registry = map[string]*Prop{}
 // Register adds a property executor.
 func Register(p *Prop) { registry[p.ID] = p }
 
+// modes holds further harnesses of a property that live in another package than its
+// main one; a plan selects one with the knob "mode".
+var modes = map[string]map[int64]*Prop{}
+
+// RegisterMode adds a harness for plans of property id whose knob "mode" equals mode.
+func RegisterMode(id string, mode int64, p *Prop) {
+	if modes[id] == nil {
+		modes[id] = map[int64]*Prop{}
+	}
+	modes[id][mode] = p
+}
+
+// Mode returns the harness registered for (id, mode), or nil.
+func Mode(id string, mode int64) *Prop { return modes[id][mode] }
+
+func lookup(p *Plan) *Prop {
+	if m := modes[p.Prop][p.Knob("mode", 0)]; m != nil {
+		return m
+	}
+	return registry[p.Prop]
+}
+
 // RunTasks runs the scheduler until all current client tasks finish; a stuck
 // run is recorded as a violation of class "stuck".
 func (c *Ctx) RunTasks() bool {
@@ -205,7 +227,7 @@ func trimStack(s string) string {
 
 // RunPlan executes one plan in a fresh bubble and returns its result.
 func RunPlan(t *testing.T, p *Plan, keepLog bool) (res *Result) {
-	prop := registry[p.Prop]
+	prop := lookup(p)
 	if prop == nil {
 		return &Result{Prop: p.Prop, Seed: p.Seed, Inconcl: "unknown property " + p.Prop}
 	}
